@@ -369,6 +369,42 @@ theorem mention_snoc (i : Nat) (es : Layer) (e : Entry) (q : Path) (hq : q ≠ [
     · have hqe' : ¬ q = e.p := fun h => hqe h.symm
       cases hi : impliedDir es q <;> cases hu : isUnder q e.p <;> simp [hqe, hqe', hmp, hu]
 
+theorem impliedDir_of_under {es : Layer} {q p : Path} (h : impliedDir es p = true) (hu : isUnder q p = true) :
+    impliedDir es q = true := by
+  unfold impliedDir at h ⊢
+  rw [List.any_eq_true] at h ⊢
+  obtain ⟨x, hx, hxu⟩ := h
+  exact ⟨x, hx, isUnder_trans hu hxu⟩
+
+/-- a directory's own entry arriving after entries beneath it: it replaces the made-up node, nothing else changes -/
+theorem mention_snoc_upg (i : Nat) (es : Layer) (e : Entry) (q : Path)
+    (hx : explicitFirst i es e.p = none) (himp : impliedDir es e.p = true) :
+    mention i (es ++ [e]) q = if q = e.p then some (e.node i) else mention i es q := by
+  unfold mention
+  rw [explicitFirst_snoc, impliedDir_snoc]
+  by_cases hq : q = e.p
+  · subst hq; simp [hx]
+  · have hq' : ¬ e.p = q := fun h => hq h.symm
+    simp only [hq, hq', if_false, Option.or_none]
+    cases hxq : explicitFirst i es q with
+    | some n => rfl
+    | none =>
+      cases hu : isUnder q e.p with
+      | false => simp
+      | true => simp [impliedDir_of_under himp hu]
+
+theorem upgrade_get (i : Nat) (t : Tree) (p : Path) (n : Node) (q : Path) :
+    (upgrade i t p n).get q =
+      if q = p then (match t.get p with | some y => if y.virt && y.layer == i then some n else some y | none => none)
+      else t.get q := by
+  unfold upgrade
+  cases h : t.get p with
+  | none => by_cases hq : q = p <;> simp [hq, h]
+  | some y =>
+    by_cases hy : (y.virt && y.layer == i) = true
+    · simp only [hy, if_true, upd_get]
+    · simp only [hy]; by_cases hq : q = p <;> simp [hq, h]
+
 theorem node_blocks (e : Entry) (i : Nat) : (e.node i).blocks = e.blocker := rfl
 
 /-- the contribution of a tar at a path that has listed entries beneath it is never a blocker, when nothing is
@@ -403,9 +439,10 @@ theorem mention_nonblocking (i : Nat) (l done : Layer)
 /-- What reading one tar does to a later view, entry by entry.  `done` = entries already read, `own` = the
 layer's own chain, `v'` = the later view so far, `v` = that view before this layer. -/
 theorem layer_fold (i : Nat) (l : Layer) (v : Tree)
-    (hnub : ∀ b ∈ l, b.blocker = true → ∀ e ∈ l, isUnder b.p e.p = false) :
+    (hnub : ∀ b ∈ l, b.blocker = true → ∀ e ∈ l, isUnder b.p e.p = false)
+    (hvl : ∀ q n, v.get q = some n → n.virt = true → n.layer ≠ i) :
     ∀ (rest done : Layer) (own v' : Tree), done ++ rest = l → freshB done rest = true →
-      own.get [] = some (implDir i) → (∀ q, q ≠ [] → own.get q = mention i done q) →
+      own.get [] = some (rootNode i) → (∀ q, q ≠ [] → own.get q = mention i done q) →
       v'.get [] = v.get [] →
       (∀ q, q ≠ [] → v'.get q = (v.get q).or (if inWhDir v q then none else mention i done q)) →
       ((rest.foldl (entryStep i) (own, v')).2.get [] = v.get []) ∧
@@ -419,8 +456,8 @@ theorem layer_fold (i : Nat) (l : Layer) (v : Tree)
     exact ⟨by simpa using h0, by simpa using h2⟩
   | cons e rest ih =>
     intro done own v' hl hf ho0 h1 hv0 h2
-    simp only [freshB, Bool.and_eq_true, Bool.not_eq_true', bne_iff_ne, ne_eq] at hf
-    obtain ⟨⟨hnew, hne⟩, hf'⟩ := hf
+    simp only [freshB, Bool.and_eq_true, Bool.or_eq_true, Bool.not_eq_true', bne_iff_ne, ne_eq] at hf
+    obtain ⟨⟨hfresh, hne⟩, hf'⟩ := hf
     have hel : e ∈ l := by rw [← hl]; simp
     have hdone : ∀ x ∈ done, x ∈ l := by intro x hx; rw [← hl]; simp [hx]
     have hD1 : ∀ d, isUnder d e.p = true → ∀ m, mention i done d = some m → m.blocks = false :=
@@ -428,7 +465,7 @@ theorem layer_fold (i : Nat) (l : Layer) (v : Tree)
     have hownNB : ∀ d, isUnder d e.p = true → blocksAt own d = false := by
       intro d hd
       by_cases hd0 : d = []
-      · subst hd0; simp [blocksAt, ho0, implDir_blocks]
+      · subst hd0; simp [blocksAt, ho0, rootNode, Node.blocks]
       · unfold blocksAt; rw [h1 d hd0]
         cases hm : mention i done d with
         | none => rfl
@@ -464,46 +501,96 @@ theorem layer_fold (i : Nat) (l : Layer) (v : Tree)
       rcases hd with rfl | hd
       · exact hd'
       · exact isUnder_trans hd' hd
-    have hown : own.get e.p = none := by
-      rw [h1 e.p hne]; exact (mention_none_iff i done e.p).mpr hnew
     simp only [List.foldl_cons]
-    have hstep : entryStep i (own, v') e =
-        (fill1 (parentsFold i (own, v') (parents e.p)).1 e.p (e.node i),
-         fill1 (parentsFold i (own, v') (parents e.p)).2 e.p (e.node i)) := by
-      simp [entryStep, hown]
-    rw [hstep]
-    have hpar : ∀ q, q ∈ parents e.p → isUnder q e.p = true := fun q hq => ((mem_parents e.p q).mp hq).2
-    apply ih (done ++ [e]) _ _ (by rw [← hl]; simp) hf'
-    · rw [fill1_get, if_neg (Ne.symm hne), parentsFold_own, if_neg (nil_not_mem_parents _)]; exact ho0
-    · intro q hq
-      rw [mention_snoc i done e q hq hnew, fill1_get, (parentsFold_inWhDir i _ _ _).1, parentsFold_own, parentsFold_own]
-      unfold delta
-      by_cases hqe : q = e.p
-      · subst hqe
-        have hmn : mention i done e.p = none := (mention_none_iff i done e.p).mpr hnew
-        simp [not_mem_parents_self, hown, hD2 e.p (Or.inl rfl), hmn]
-      · simp only [hqe, if_false]
-        by_cases hm : q ∈ parents e.p
-        · simp [hm, hD2 q (Or.inr (hpar q hm)), h1 q hq]
-        · simp [hm, h1 q hq]
-    · rw [fill1_get, if_neg (Ne.symm hne), parentsFold_view]; simp [nil_not_mem_parents, hv0]
-    · intro q hq
-      rw [mention_snoc i done e q hq hnew, fill1_get, (parentsFold_inWhDir i _ _ _).2, parentsFold_view, parentsFold_view]
-      unfold delta
-      by_cases hqe : q = e.p
-      · subst hqe
-        have hmn : mention i done e.p = none := (mention_none_iff i done e.p).mpr hnew
-        simp only [not_mem_parents_self, false_and, if_false, if_true]
-        rw [hD3 e.p (Or.inl rfl), h2 e.p hq, hmn]
-        cases hv : v.get e.p <;> by_cases hw : inWhDir v e.p = true <;> simp [hw]
-      · simp only [hqe, if_false]
-        by_cases hm : q ∈ parents e.p
-        · simp only [hm, true_and, if_true]
-          rw [h1 q hq, hD3 q (Or.inr (hpar q hm)), h2 q hq]
-          cases hmq : mention i done q <;> cases hv : v.get q <;> by_cases hw : inWhDir v q = true <;> simp [hw]
-        · simp only [hm, false_and, if_false]
-          rw [h2 q hq]
-          cases hmq : mention i done q <;> cases hv : v.get q <;> by_cases hw : inWhDir v q = true <;> simp [hw]
+    by_cases hnew : mentionedBy done e.p = false
+    · -- the entry's path is new
+      have hown : own.get e.p = none := by
+        rw [h1 e.p hne]; exact (mention_none_iff i done e.p).mpr hnew
+      have hstep : entryStep i (own, v') e =
+          (fill1 (parentsFold i (own, v') (parents e.p)).1 e.p (e.node i),
+           fill1 (parentsFold i (own, v') (parents e.p)).2 e.p (e.node i)) := by
+        simp [entryStep, hown]
+      rw [hstep]
+      have hpar : ∀ q, q ∈ parents e.p → isUnder q e.p = true := fun q hq => ((mem_parents e.p q).mp hq).2
+      apply ih (done ++ [e]) _ _ (by rw [← hl]; simp) hf'
+      · rw [fill1_get, if_neg (Ne.symm hne), parentsFold_own, if_neg (nil_not_mem_parents _)]; exact ho0
+      · intro q hq
+        rw [mention_snoc i done e q hq hnew, fill1_get, (parentsFold_inWhDir i _ _ _).1, parentsFold_own, parentsFold_own]
+        unfold delta
+        by_cases hqe : q = e.p
+        · subst hqe
+          have hmn : mention i done e.p = none := (mention_none_iff i done e.p).mpr hnew
+          simp [not_mem_parents_self, hown, hD2 e.p (Or.inl rfl), hmn]
+        · simp only [hqe, if_false]
+          by_cases hm : q ∈ parents e.p
+          · simp [hm, hD2 q (Or.inr (hpar q hm)), h1 q hq]
+          · simp [hm, h1 q hq]
+      · rw [fill1_get, if_neg (Ne.symm hne), parentsFold_view]; simp [nil_not_mem_parents, hv0]
+      · intro q hq
+        rw [mention_snoc i done e q hq hnew, fill1_get, (parentsFold_inWhDir i _ _ _).2, parentsFold_view, parentsFold_view]
+        unfold delta
+        by_cases hqe : q = e.p
+        · subst hqe
+          have hmn : mention i done e.p = none := (mention_none_iff i done e.p).mpr hnew
+          simp only [not_mem_parents_self, false_and, if_false, if_true]
+          rw [hD3 e.p (Or.inl rfl), h2 e.p hq, hmn]
+          cases hv : v.get e.p <;> by_cases hw : inWhDir v e.p = true <;> simp [hw]
+        · simp only [hqe, if_false]
+          by_cases hm : q ∈ parents e.p
+          · simp only [hm, true_and, if_true]
+            rw [h1 q hq, hD3 q (Or.inr (hpar q hm)), h2 q hq]
+            cases hmq : mention i done q <;> cases hv : v.get q <;> by_cases hw : inWhDir v q = true <;> simp [hw]
+          · simp only [hm, false_and, if_false]
+            rw [h2 q hq]
+            cases hmq : mention i done q <;> cases hv : v.get q <;> by_cases hw : inWhDir v q = true <;> simp [hw]
+    · -- the directory's own entry after entries beneath it: the made-up node is overwritten in place
+      have hupg : upgradeOK done e = true := by
+        rcases hfresh with h | h
+        · exact absurd h hnew
+        · exact h
+      unfold upgradeOK at hupg
+      simp only [Bool.and_eq_true, beq_iff_eq, Bool.not_eq_true', List.any_eq_false] at hupg
+      obtain ⟨⟨hkind, hwh⟩, hnone⟩ := hupg
+      have hx : explicitFirst i done e.p = none :=
+        (explicitFirst_none_iff i done e.p).mpr fun x hx h => by have := hnone x hx; simp [h] at this
+      have hmen : mention i done e.p ≠ none := fun h => hnew ((mention_none_iff i done e.p).mp h)
+      have himp : impliedDir done e.p = true := by
+        unfold mention at hmen; rw [hx] at hmen
+        cases hi : impliedDir done e.p with
+        | true => rfl
+        | false => simp [hi] at hmen
+      have hmention : mention i done e.p = some (implDir i) := by unfold mention; rw [hx]; simp [himp]
+      have hown : own.get e.p = some (implDir i) := by rw [h1 e.p hne]; exact hmention
+      have hupgs : upgrades own e = true := by unfold upgrades; rw [hown]; simp [implDir, hkind, hwh]
+      have hstep : entryStep i (own, v') e = (upgrade i own e.p (e.node i), upgrade i v' e.p (e.node i)) := by
+        simp [entryStep, hown, hupgs]
+      rw [hstep]
+      apply ih (done ++ [e]) _ _ (by rw [← hl]; simp) hf'
+      · rw [upgrade_get, if_neg (Ne.symm hne)]; exact ho0
+      · intro q hq
+        rw [mention_snoc_upg i done e q hx himp, upgrade_get]
+        by_cases hqe : q = e.p
+        · subst hqe; simp [hown, implDir]
+        · simp [hqe, h1 q hq]
+      · rw [upgrade_get, if_neg (Ne.symm hne)]; exact hv0
+      · intro q hq
+        rw [mention_snoc_upg i done e q hx himp, upgrade_get]
+        by_cases hqe : q = e.p
+        · subst hqe
+          simp only [if_true]
+          rw [h2 e.p hq, hmention]
+          cases hv : v.get e.p with
+          | some y =>
+            simp only [Option.some_or]
+            by_cases hy : (y.virt && y.layer == i) = true
+            · simp only [Bool.and_eq_true, beq_iff_eq] at hy
+              exact absurd hy.2 (hvl e.p y hv hy.1)
+            · simp [hy]
+          | none =>
+            by_cases hw : inWhDir v e.p = true
+            · simp [hw]
+            · simp [hw, implDir]
+        · simp only [hqe, if_false]; exact h2 q hq
 
 theorem noUnderBlocker_iff (l : Layer) :
     noUnderBlocker l = true ↔ ∀ b ∈ l, b.blocker = true → ∀ e ∈ l, isUnder b.p e.p = false := by
@@ -524,13 +611,14 @@ theorem mention_nil (i : Nat) (q : Path) : mention i [] q = none := by
 
 /-- **What one layer does to a later view** (`layerOK` tar): a path keeps what the view already has; otherwise,
 unless it lies below a deleted or replaced ancestor of the view, it gets the layer's own contribution. -/
-theorem revLayer_apply (i : Nat) (v : Tree) (l : Layer) (hok : layerOK l = true) :
+theorem revLayer_apply (i : Nat) (v : Tree) (l : Layer) (hok : layerOK l = true)
+    (hvl : ∀ q n, v.get q = some n → n.virt = true → n.layer ≠ i) :
     (revLayer i v l).get [] = v.get [] ∧
     ∀ q, q ≠ [] → (revLayer i v l).get q = (v.get q).or (if inWhDir v q then none else mention i l q) := by
   unfold layerOK at hok
   rw [Bool.and_eq_true] at hok
   unfold revLayer
-  apply layer_fold i l v ((noUnderBlocker_iff l).mp hok.2) l [] (rootTree i) v (by simp) hok.1 rfl
+  apply layer_fold i l v ((noUnderBlocker_iff l).mp hok.2) hvl l [] (rootTree i) v (by simp) hok.1 rfl
   · intro q hq; simp [rootTree, hq, mention_nil]
   · rfl
   · intro q _; simp [mention_nil]
